@@ -60,7 +60,7 @@ CHECKS = {
         "groups": [
             {"pkg": "Havoc/pkg/handlers", "with": ["Havoc/pkg/agent"] + AGENT_WITH, "entries": ["H_c12_admission"], "flags": ["-tags", "c12"], "shards": 4},
         ],
-        "bounds": "URIs: none / [\"\"] / one / two configured, request URI '/'+1 arbitrary byte; User-Agent set/unset ('UA'+1 byte) and present/absent in the request; request headers: none, one required header with a 2-byte arbitrary value (may contain ':' and blanks), with ignored headers in either case; response headers: none / one / two with a 3-byte arbitrary value (may contain ':'); redirector flag; IPv4 and IPv6 peers.",
+        "bounds": "URIs: none / [\"\"] / one / two / [\"\", one] configured, request URI '/'+1 arbitrary byte; User-Agent set/unset ('UA'+1 byte) and present/absent in the request; request headers: none, one required header with a 2-byte arbitrary value (may contain ':' and blanks), with ignored headers in either case; response headers: none / one / two with a 3-byte arbitrary value (may contain ':'); redirector flag; IPv4 and IPv6 peers.",
         "outside": "gin routing and method dispatch (POST/GET registration), net/http, TLS, the bytes of 404.html; header names are concrete",
         "min_completed": 3,
     },
